@@ -1201,7 +1201,9 @@ def manifest():
         "checks": checks,
         "not_applicable": na,
         "notes": "Exit codes of vk: 0 held, 1 VIOLATION (counterexample replayed natively), 2 inconclusive (resource-out / build failure / "
-                 "non-reproducing counterexample). Fix commits in /repo: see known_findings.json.",
+                 "non-reproducing counterexample). Exit codes of ms (MIR->SMT): 0 every obligation discharged and every cover witness reached, 1 VIOLATION (counterexample re-executed "
+                 "concretely on the MIR; Entries-level ones also natively), 2 inconclusive (statement form or value the encoder does not know, solver undecided, recursion bound, "
+                 "vacuity, implementation-derived growth-policy spec no longer matching). check_C12.sh = vk then ms for C12. Fix commits in /repo: see known_findings.json.",
     }
 
 
